@@ -2,7 +2,7 @@
   TE.Driver.Count — protocol adapters for the C04 models: unpack tensors,
   perform the shape checks the real `_input_check`s perform, call the typed model.
 -/
-import TE.Driver.Proto
+import TE.Driver.Fam
 import TE.Model.Count
 namespace TE.Driver
 open TE TE.Count
@@ -28,10 +28,6 @@ def natLabels (d : List Q) : Except String (List Nat) :=
   d.mapM fun q => match qToNat? q with
     | some n => .ok n | none => .error "non-natural label"
 
-/-- result of an `update`-style adapter: either a protocol error (harness bug)
-    or a modelled outcome. -/
-abbrev RS := Except String (Except Err String)
-
 /-- predictions for the multiclass family: labels (1-D) or arg-max of logits (2-D). -/
 def mcPreds (input : T) : Except String (List Nat) :=
   if input.ndim = 2 then .ok (input.rows.map argmaxFirst) else natLabels input.data
@@ -44,79 +40,107 @@ def mcShapeOk (i t : T) (numClasses : Option Nat) : Bool :=
   i.shape.head? == t.shape.head? && t.ndim == 1 && i.ndim ≥ 1 &&
   (i.ndim == 1 || (i.ndim == 2 && (numClasses.isNone || i.shape[1]? == numClasses)))
 
-structure CountState where
-  parts : List (List Q)
-deriving Repr
-
-def showParts (ps : List (List Q)) : String := " ".intercalate (ps.map showVecQ)
-
-/- ---------- functional entry points ---------- -/
-
-def fnBinaryAccuracy (a : Args) : RS := do
-  let i ← a.tensor "input"; let t ← a.tensor "target"; let thr ← a.ratD "threshold" (1/2)
-  if !binaryShapeOk i t then return .error .value
-  let (c, n) := binaryAccuracyUpdate thr i.data t.data
-  return .ok (showScalarX (xdiv c n))
-
 def avgOf (a : Args) : Except String Avg := parseAvg (a.strD "average" "micro")
 
-def fnMulticlassAccuracy (a : Args) : RS := do
-  let i ← a.tensor "input"; let t ← a.tensor "target"
-  let avg ← avgOf a; let nc ← a.nat? "num_classes"; let k := (← a.nat? "k").getD 1
-  if avg == .weighted then return .error .value
-  if avg != .micro && (nc.isNone || nc == some 0) then return .error .value
-  if k < 1 then return .error .value
-  if !(i.shape.head? == t.shape.head? && i.ndim ≥ 1) then return .error .value
-  if t.ndim != 1 then return .error .value
-  if k > 1 && i.ndim != 2 then return .error .value
-  if !(i.ndim == 1 || (i.ndim == 2 && (nc.isNone || i.shape[1]? == nc))) then return .error .value
-  let labs ← natLabels t.data
-  let mask ← (if k == 1 then do
-      let p ← mcPreds i
-      pure (mcMaskLabel p labs)
-    else pure (mcMaskTopk i.rows labs k))
-  -- torch.gather raises for a label outside the logit row
-  if k > 1 && !(labs.all (· < (i.shape[1]?.getD 0))) then return .error .runtime
-  match mcAccFromMask mask labs avg (nc.getD 0) with
-  | .error e => return .error e
-  | .ok (c, n) =>
-    let r := accuracyCompute c n avg
-    return .ok (if avg == .none then showVecX r else showScalarX (r.headD .nan))
+def io (a : Args) : Except Err (T × T) := liftP do
+  let i ← a.tensor "input"; let t ← a.tensor "target"; pure (i, t)
 
-def fnMultilabelAccuracy (a : Args) : RS := do
-  let i ← a.tensor "input"; let t ← a.tensor "target"; let thr ← a.ratD "threshold" (1/2)
-  let crit ← parseCrit (a.strD "criteria" "exact_match")
-  if i.shape != t.shape || i.ndim != 2 then return .error .value
-  let (c, n) := multilabelAccuracyUpdate thr crit i.rows t.rows
-  return .ok (showScalarX (xdiv c n))
+def scalarOut (x : XQ) : Except Err String := .ok (showScalarX x)
 
-def fnTopkMultilabelAccuracy (a : Args) : RS := do
-  let i ← a.tensor "input"; let t ← a.tensor "target"
-  let crit ← parseCrit (a.strD "criteria" "exact_match"); let k := (← a.nat? "k").getD 2
-  if k ≤ 1 then return .error .value
-  if i.shape != t.shape || i.ndim != 2 then return .error .value
-  if k > i.shape[1]?.getD 0 then return .error .runtime
-  let (c, n) := topkMultilabelUpdate crit k i.rows t.rows
-  return .ok (showScalarX (xdiv c n))
+/- ---------- accuracy ---------- -/
 
-def fnBinaryPrecision (a : Args) : RS := do
-  let i ← a.tensor "input"; let t ← a.tensor "target"; let thr ← a.ratD "threshold" (1/2)
-  if !binaryShapeOk i t then return .error .value
-  let (tp, fp) := binaryPrecisionUpdate thr i.data t.data
-  return .ok (showScalarX (.val (divNan0 tp (tp + fp))))
+def famBinaryAccuracy (cfg : Args) : Except String Fam := do
+  let thr ← cfg.ratD "threshold" (1/2)
+  pure {
+    stat := fun a => do
+      let (i, t) ← io a
+      if !binaryShapeOk i t then throw .value
+      let (c, n) := binaryAccuracyUpdate thr i.data t.data
+      pure [[c], [n]]
+    outA := fun p => scalarOut (xdiv (part0 p 0) (part0 p 1)) }
 
-def fnBinaryRecall (a : Args) : RS := do
-  let i ← a.tensor "input"; let t ← a.tensor "target"; let thr ← a.ratD "threshold" (1/2)
-  if !binaryShapeOk i t then return .error .value
-  let ys ← natLabels t.data
-  let (tp, n) := binaryRecallUpdate thr i.data ys
-  return .ok (showScalarX (.val (divNan0 tp n)))
+def famMulticlassAccuracy (cfg : Args) : Except String Fam := do
+  let avg ← avgOf cfg; let nc ← cfg.nat? "num_classes"; let k := (← cfg.nat? "k").getD 1
+  let C := nc.getD 0
+  let paramOk := !(avg == .weighted) && !(avg != .micro && (nc.isNone || nc == some 0)) && k ≥ 1
+  pure {
+    stat := fun a => do
+      if !paramOk then throw .value
+      let (i, t) ← io a
+      if !(i.shape.head? == t.shape.head? && i.ndim ≥ 1) then throw .value
+      if t.ndim != 1 then throw .value
+      if k > 1 && i.ndim != 2 then throw .value
+      if !(i.ndim == 1 || (i.ndim == 2 && (nc.isNone || i.shape[1]? == nc))) then throw .value
+      let labs ← liftP (natLabels t.data)
+      let mask ← (if k == 1 then do
+          let p ← liftP (mcPreds i)
+          pure (mcMaskLabel p labs)
+        else pure (mcMaskTopk i.rows labs k))
+      -- torch.gather raises for a label outside the logit row
+      if k > 1 && !(labs.all (· < (i.shape[1]?.getD 0))) then throw .runtime
+      let (c, n) ← mcAccFromMask mask labs avg C
+      pure [c, n]
+    outA := fun p =>
+      if !paramOk then .error .value else
+      let w := if avg == .micro then 1 else C
+      let r := accuracyCompute (part p 0 w) (part p 1 w) avg
+      .ok (if avg == .none then showVecX r else showScalarX (r.headD .nan)) }
 
-def fnBinaryF1 (a : Args) : RS := do
-  let i ← a.tensor "input"; let t ← a.tensor "target"; let thr ← a.ratD "threshold" (1/2)
-  if !(i.ndim == 1 && t.ndim == 1 && i.shape == t.shape) then return .error .value
-  let (tp, lab, prd) := binaryF1Update thr i.data t.data
-  return .ok (showScalarX (.val (f1One tp lab prd)))
+def famMultilabelAccuracy (cfg : Args) : Except String Fam := do
+  let thr ← cfg.ratD "threshold" (1/2)
+  let crit ← parseCrit (cfg.strD "criteria" "exact_match")
+  pure {
+    stat := fun a => do
+      let (i, t) ← io a
+      if i.shape != t.shape || i.ndim != 2 then throw .value
+      let (c, n) := multilabelAccuracyUpdate thr crit i.rows t.rows
+      pure [[c], [n]]
+    outA := fun p => scalarOut (xdiv (part0 p 0) (part0 p 1)) }
+
+def famTopkMultilabelAccuracy (cfg : Args) : Except String Fam := do
+  let crit ← parseCrit (cfg.strD "criteria" "exact_match"); let k := (← cfg.nat? "k").getD 2
+  pure {
+    stat := fun a => do
+      if k ≤ 1 then throw .value
+      let (i, t) ← io a
+      if i.shape != t.shape || i.ndim != 2 then throw .value
+      if k > i.shape[1]?.getD 0 then throw .runtime
+      let (c, n) := topkMultilabelUpdate crit k i.rows t.rows
+      pure [[c], [n]]
+    outA := fun p => if k ≤ 1 then .error .value else scalarOut (xdiv (part0 p 0) (part0 p 1)) }
+
+/- ---------- precision / recall / F1 ---------- -/
+
+def famBinaryPrecision (cfg : Args) : Except String Fam := do
+  let thr ← cfg.ratD "threshold" (1/2)
+  pure {
+    stat := fun a => do
+      let (i, t) ← io a
+      if !binaryShapeOk i t then throw .value
+      let (tp, fp) := binaryPrecisionUpdate thr i.data t.data
+      pure [[tp], [fp]]
+    outA := fun p => scalarOut (.val (divNan0 (part0 p 0) (part0 p 0 + part0 p 1))) }
+
+def famBinaryRecall (cfg : Args) : Except String Fam := do
+  let thr ← cfg.ratD "threshold" (1/2)
+  pure {
+    stat := fun a => do
+      let (i, t) ← io a
+      if !binaryShapeOk i t then throw .value
+      let ys ← liftP (natLabels t.data)
+      let (tp, n) := binaryRecallUpdate thr i.data ys
+      pure [[tp], [n]]
+    outA := fun p => scalarOut (.val (divNan0 (part0 p 0) (part0 p 1))) }
+
+def famBinaryF1 (cfg : Args) : Except String Fam := do
+  let thr ← cfg.ratD "threshold" (1/2)
+  pure {
+    stat := fun a => do
+      let (i, t) ← io a
+      if !(i.ndim == 1 && t.ndim == 1 && i.shape == t.shape) then throw .value
+      let (tp, lab, prd) := binaryF1Update thr i.data t.data
+      pure [[tp], [lab], [prd]]
+    outA := fun p => scalarOut (.val (f1One (part0 p 0) (part0 p 1) (part0 p 2))) }
 
 inductive PRFKind where | precision | recall | f1
 deriving DecidableEq
@@ -132,57 +156,77 @@ def prfCompute (kind : PRFKind) (s : PRF) (avg : Avg) : List XQ :=
   | .recall => recallCompute s avg
   | .f1 => f1Compute s avg
 
-def fnMulticlassPRF (kind : PRFKind) (a : Args) : RS := do
-  let i ← a.tensor "input"; let t ← a.tensor "target"
-  let avg ← avgOf a; let nc ← a.nat? "num_classes"
-  if avg != .micro && (nc.isNone || nc == some 0) then return .error .value
-  if !mcShapeOk i t nc then return .error .value
-  let labs ← natLabels t.data
-  let p ← mcPreds i
-  match prfUpdate kind p labs avg (nc.getD 0) with
-  | .error e => return .error e
-  | .ok s =>
-    let r := prfCompute kind s avg
-    return .ok (if avg == .none then showVecX r else showScalarX (r.headD .nan))
+def famMulticlassPRF (kind : PRFKind) (cfg : Args) : Except String Fam := do
+  let avg ← avgOf cfg; let nc ← cfg.nat? "num_classes"
+  let C := nc.getD 0
+  let paramOk := !(avg != .micro && (nc.isNone || nc == some 0))
+  pure {
+    stat := fun a => do
+      if !paramOk then throw .value
+      let (i, t) ← io a
+      if !mcShapeOk i t nc then throw .value
+      let labs ← liftP (natLabels t.data)
+      let p ← liftP (mcPreds i)
+      let s ← prfUpdate kind p labs avg C
+      pure [s.tp, s.a, s.b]
+    outA := fun p =>
+      if !paramOk then .error .value else
+      let w := if avg == .micro then 1 else C
+      let r := prfCompute kind ⟨part p 0 w, part p 1 w, part p 2 w⟩ avg
+      .ok (if avg == .none then showVecX r else showScalarX (r.headD .nan)) }
 
-def fnBinaryConfusion (a : Args) : RS := do
-  let i ← a.tensor "input"; let t ← a.tensor "target"; let thr ← a.ratD "threshold" (1/2)
-  let norm ← parseNorm (a.strD "normalize" "none")
-  if !(i.ndim == 1 && t.ndim == 1 && i.shape == t.shape) then return .error .value
-  let labs ← natLabels t.data
-  match confusionUpdate (i.data.map (thresh thr)) labs 2 with
-  | .error e => return .error e
-  | .ok m => return .ok (showMatX (confusionCompute m 2 norm) 2)
+/- ---------- confusion matrices ---------- -/
 
-def fnMulticlassConfusion (a : Args) : RS := do
-  let i ← a.tensor "input"; let t ← a.tensor "target"; let nc ← a.nat "num_classes"
-  let norm ← parseNorm (a.strD "normalize" "none")
-  if nc < 2 then return .error .value
-  if !(i.shape.head? == t.shape.head? && i.ndim ≥ 1) then return .error .value
-  if t.ndim != 1 then return .error .value
-  if !(i.ndim == 1 || (i.ndim == 2 && i.shape[1]? == some nc)) then return .error .value
-  let labs ← natLabels t.data
-  let p ← mcPreds i
-  -- value checks of `_confusion_matrix_update_input_check` (upper bound only)
-  if i.ndim == 1 && !(p.all (· < nc)) then return .error .value
-  if !(labs.all (· < nc)) then return .error .value
-  match confusionUpdate p labs nc with
-  | .error e => return .error e
-  | .ok m => return .ok (showMatX (confusionCompute m nc norm) nc)
+def matOfPart (v : List Q) (n : Nat) : Mat :=
+  (List.range n).map fun r => (v.drop (r * n)).take n
 
-def countFns : List (String × (Args → RS)) := [
-  ("binary_accuracy", fnBinaryAccuracy),
-  ("multiclass_accuracy", fnMulticlassAccuracy),
-  ("multilabel_accuracy", fnMultilabelAccuracy),
-  ("topk_multilabel_accuracy", fnTopkMultilabelAccuracy),
-  ("binary_precision", fnBinaryPrecision),
-  ("binary_recall", fnBinaryRecall),
-  ("binary_f1_score", fnBinaryF1),
-  ("multiclass_precision", fnMulticlassPRF .precision),
-  ("multiclass_recall", fnMulticlassPRF .recall),
-  ("multiclass_f1_score", fnMulticlassPRF .f1),
-  ("binary_confusion_matrix", fnBinaryConfusion),
-  ("multiclass_confusion_matrix", fnMulticlassConfusion)
+def famBinaryConfusion (cfg : Args) : Except String Fam := do
+  let thr ← cfg.ratD "threshold" (1/2)
+  let norm ← parseNorm (cfg.strD "normalize" "none")
+  pure {
+    stat := fun a => do
+      let (i, t) ← io a
+      if !(i.ndim == 1 && t.ndim == 1 && i.shape == t.shape) then throw .value
+      let labs ← liftP (natLabels t.data)
+      let m ← confusionUpdate (i.data.map (thresh thr)) labs 2
+      pure [m.flatten]
+    outA := fun p => .ok (showMatX (confusionCompute (matOfPart (part p 0 4) 2) 2 norm) 2) }
+
+def famMulticlassConfusion (cfg : Args) : Except String Fam := do
+  let nc ← cfg.nat "num_classes"
+  let norm ← parseNorm (cfg.strD "normalize" "none")
+  pure {
+    stat := fun a => do
+      if nc < 2 then throw .value
+      let (i, t) ← io a
+      if !(i.shape.head? == t.shape.head? && i.ndim ≥ 1) then throw .value
+      if t.ndim != 1 then throw .value
+      if !(i.ndim == 1 || (i.ndim == 2 && i.shape[1]? == some nc)) then throw .value
+      let labs ← liftP (natLabels t.data)
+      let p ← liftP (mcPreds i)
+      -- value checks of `_confusion_matrix_update_input_check` (upper bound only)
+      if i.ndim == 1 && !(p.all (· < nc)) then throw .value
+      if !(labs.all (· < nc)) then throw .value
+      let m ← confusionUpdate p labs nc
+      pure [m.flatten]
+    outA := fun p =>
+      if nc < 2 then .error .value else
+      .ok (showMatX (confusionCompute (matOfPart (part p 0 (nc * nc)) nc) nc norm) nc) }
+
+/-- functional name ↦ family; class name ↦ family -/
+def countFams : List (String × String × (Args → Except String Fam)) := [
+  ("binary_accuracy", "BinaryAccuracy", famBinaryAccuracy),
+  ("multiclass_accuracy", "MulticlassAccuracy", famMulticlassAccuracy),
+  ("multilabel_accuracy", "MultilabelAccuracy", famMultilabelAccuracy),
+  ("topk_multilabel_accuracy", "TopKMultilabelAccuracy", famTopkMultilabelAccuracy),
+  ("binary_precision", "BinaryPrecision", famBinaryPrecision),
+  ("binary_recall", "BinaryRecall", famBinaryRecall),
+  ("binary_f1_score", "BinaryF1Score", famBinaryF1),
+  ("multiclass_precision", "MulticlassPrecision", famMulticlassPRF .precision),
+  ("multiclass_recall", "MulticlassRecall", famMulticlassPRF .recall),
+  ("multiclass_f1_score", "MulticlassF1Score", famMulticlassPRF .f1),
+  ("binary_confusion_matrix", "BinaryConfusionMatrix", famBinaryConfusion),
+  ("multiclass_confusion_matrix", "MulticlassConfusionMatrix", famMulticlassConfusion)
 ]
 
 end TE.Driver
